@@ -108,8 +108,33 @@ fn apply_model(m: &mut Model, op: &Op) {
     }
 }
 
-// every mutator result is discarded, so the harness still builds if a mutator starts returning a value
+// every mutator result is discarded, so the harness still builds if a mutator starts returning a value.
+// Bulk operations receive their indices through different kinds of iterators (the signatures accept any iterator):
+// a slice iterator (exact size hint), a filtered one (lower size bound 0), a chained one and an owning one.
 fn apply_real(h: &mut SparseMatrix, op: &Op) {
+    fn kind(v: &[usize], salt: usize) -> usize {
+        (v.len() * 7 + v.first().copied().unwrap_or(3) + salt) % 4
+    }
+    macro_rules! bulk {
+        ($m:ident, $i:expr, $v:expr) => {{
+            let v: &Vec<usize> = $v;
+            match kind(v, *$i) {
+                0 => {
+                    let _ = h.$m(*$i, v.iter());
+                }
+                1 => {
+                    let _ = h.$m(*$i, v.iter().filter(|_| true));
+                }
+                2 => {
+                    let (a, b) = v.split_at(v.len() / 2);
+                    let _ = h.$m(*$i, a.iter().chain(b.iter()));
+                }
+                _ => {
+                    let _ = h.$m(*$i, v.clone().into_iter());
+                }
+            }
+        }};
+    }
     match op {
         Op::Insert(r, c) => {
             let _ = h.insert(*r, *c);
@@ -120,24 +145,16 @@ fn apply_real(h: &mut SparseMatrix, op: &Op) {
         Op::Toggle(r, c) => {
             let _ = h.toggle(*r, *c);
         }
-        Op::InsertRow(r, cs) => {
-            let _ = h.insert_row(*r, cs.iter());
-        }
-        Op::InsertCol(c, rs) => {
-            let _ = h.insert_col(*c, rs.iter());
-        }
+        Op::InsertRow(r, cs) => bulk!(insert_row, r, cs),
+        Op::InsertCol(c, rs) => bulk!(insert_col, c, rs),
         Op::ClearRow(r) => {
             let _ = h.clear_row(*r);
         }
         Op::ClearCol(c) => {
             let _ = h.clear_col(*c);
         }
-        Op::SetRow(r, cs) => {
-            let _ = h.set_row(*r, cs.iter());
-        }
-        Op::SetCol(c, rs) => {
-            let _ = h.set_col(*c, rs.iter());
-        }
+        Op::SetRow(r, cs) => bulk!(set_row, r, cs),
+        Op::SetCol(c, rs) => bulk!(set_col, c, rs),
     }
 }
 
@@ -209,7 +226,7 @@ fn op_kind(op: &Op) -> &'static str {
 }
 
 pub fn run(run: &mut Run) {
-    run.rule = "random operation histories (length <= 200, all nine mutators incl. bulk inserts with repeated indices) on tiny shapes 1..6 x 1..6 (every 16th up to 12x12, every 256th 20..48 x 20..48, every 32nd tall or wide with one dimension 65..200 and indices clustered on residues modulo 64, every 4096th with one dimension beyond 2^16 and indices around that boundary); after EVERY operation the whole query API is compared with a BTreeSet model; a history is non-trivial if it executes at least one toggle-off, remove of a present entry or clear/set on a non-empty line; distinct = digest of (shape, operation list)".into();
+    run.rule = "random operation histories (length <= 200, all nine mutators incl. bulk inserts with repeated indices, handed over through slice, filtered, chained and owning iterators) on tiny shapes 1..6 x 1..6 (every 16th up to 12x12, every 256th 20..48 x 20..48, every 32nd tall or wide with one dimension 65..200 and indices clustered on residues modulo 64, every 4096th with one dimension beyond 2^16 and indices around that boundary); after EVERY operation the whole query API is compared with a BTreeSet model; a history is non-trivial if it executes at least one toggle-off, remove of a present entry or clear/set on a non-empty line; distinct = digest of (shape, operation list)".into();
     run.assumptions = vec![
         "iterator contents are compared as sets (the statement does not fix list order)".into(),
         "out-of-range indices are outside the domain (they index out of bounds by contract)".into(),
